@@ -873,6 +873,17 @@ func (s *cSession) commitBug(r int, b *cache.BugCache, asNeeded bool) {
 func (s *cSession) idRename(r, k int, ic *cache.IdentityCache, name int, asNeeded bool) {
 	u := s.users[r]
 	ev := cEvent{Kind: "idupd", R: r, E: k, V: name}
+	// A replica whose clocks lag behind the times recorded in the last version of an identity cannot add a version
+	// to it (Validate: non-chronological clock; reading or merging an identity does not witness its times): a
+	// liveness limit of identity editing that this property does not cover (design C05, audit A3). Such a rename is
+	// not attempted: the session goes on without it.
+	clocks, _ := u.repo.AllClocks()
+	for cname, t := range ic.LastModificationLamports() {
+		if cl, ok := clocks[cname]; !ok || cl.Time() < t {
+			s.tags["identity-rename-skipped:lagging-clock"] = true
+			return
+		}
+	}
 	err := ic.Mutate(u.repo, func(m *identity.Mutator) { m.Name = c11Names[name] })
 	if err == nil && asNeeded {
 		s.tags["identity-save:commit-as-needed"] = true
